@@ -73,7 +73,7 @@ func TestCheck(t *testing.T) {
 		endToEnd(r)
 		r.Require(r.Counter("field_cases") > 1000 && r.Counter("rule_cases") > 1000, "too few cases evaluated")
 		r.Require(r.Counter("e2e_impersonated_where_the_impersonator_would_be_routed_differently") >= int64(r.N(40, 300)), "too few allowed impersonations whose impersonator would be routed differently")
-		r.Require(r.Counter("e2e_wide_shapes") >= int64(r.N(1200, 8000)), "too few end-to-end requests with request lines outside the basic templates")
+		r.Require(r.Counter("e2e_wide_shapes") >= int64(r.N(1200, 20000)), "too few end-to-end requests with request lines outside the basic templates")
 	})
 }
 
@@ -94,7 +94,7 @@ func reportField(r *vkit.R, fc fieldCase, extra string) {
 }
 
 func perField(r *vkit.R) {
-	maxLen := r.N(3, 3)
+	maxLen := r.N(3, 4)
 	alpha := alphabet
 	if !r.Quick() {
 		// thorough: additionally length <= 4 over a reduced alphabet (done by a second pass below)
@@ -390,8 +390,8 @@ func divergingField(ru *proxyv1alpha1.DispatchPolicyRule, q *Req) string {
 }
 
 func wholeRules(r *vkit.R) {
-	nRules := r.N(20000, 2000000)
-	nPol := r.N(6000, 300000)
+	nRules := r.N(20000, 5000000)
+	nPol := r.N(6000, 800000)
 	var matched, nomatch int64
 
 	// (2a) single rule through RuleMatches
